@@ -626,6 +626,15 @@ func (ev *Evaluator) instr(env map[ssa.Value]Val, in ssa.Value) (Val, error) {
 			}
 			return nil, &Undecided{in.Pos(), "failing type assertion"}
 		}
+		// the nil interface holds no type: a comma-ok assertion fails, a plain one panics
+		if c, ok := x.(Const); ok && c.V == nil {
+			if _, isIface := in.X.Type().Underlying().(*types.Interface); isIface {
+				if in.CommaOk {
+					return Tuple{zeroOf(in.AssertedType), Const{constant.MakeBool(false)}}, nil
+				}
+				return nil, &Undecided{in.Pos(), "type assertion on a nil interface (panics)"}
+			}
+		}
 		return nil, &Undecided{in.Pos(), fmt.Sprintf("typeassert on %v", x)}
 	case *ssa.Slice:
 		x, err := ev.val(env, in.X)
@@ -979,22 +988,7 @@ func (ev *Evaluator) binop(op token.Token, x, y Val, pos token.Pos) (Val, error)
 		if !ok {
 			return nil, &Undecided{pos, fmt.Sprintf("oracle cannot order %v %s %v", x, op, y)}
 		}
-		var r bool
-		switch op {
-		case token.EQL:
-			r = ord == 0
-		case token.NEQ:
-			r = ord != 0
-		case token.LSS:
-			r = ord < 0
-		case token.LEQ:
-			r = ord <= 0
-		case token.GTR:
-			r = ord > 0
-		case token.GEQ:
-			r = ord >= 0
-		}
-		return Const{constant.MakeBool(r)}, nil
+		return Const{constant.MakeBool(cmpHolds(op, ord))}, nil
 	}
 	if r, ok := rangeArith(op, x, y); ok {
 		return r, nil
@@ -1019,8 +1013,14 @@ func (ev *Evaluator) binop(op token.Token, x, y Val, pos token.Pos) (Val, error)
 	return Term{Fn: op.String(), Args: []Val{x, y}}, nil
 }
 
-// IntRange is an integer known only to lie in [Lo, Hi] (result of a summary such as a bit count).
+// Unordered is the answer an oracle gives for a pair of floating-point operands one of which is NaN: == and every
+// ordering test are false, != is true.
+const Unordered = 99
+
 func cmpHolds(op token.Token, ord int) bool {
+	if ord == Unordered {
+		return op == token.NEQ
+	}
 	switch op {
 	case token.EQL:
 		return ord == 0
